@@ -37,26 +37,24 @@ Section Transpose1D.
     R1 RW I j = P1 nodes j I.
   Proof.
     intros HI. unfold R1, P1, w0, wl, wr.
-    destruct (j =? 2 * I); [apply (rw_center nodes cell_centers h cnodes ccell_centers ch)|].
+    destruct (j =? 2 * I); [apply rw_center|].
     destruct (j =? 2 * I - 1).
-    - rewrite (rw_left_closed Fth two_nz nodes cell_centers h cnodes ccell_centers ch
-                 n lh lch ln hpair_nz cc_def node_step cnode_def ch_def ccc_def) by lia.
+    - rewrite (rw_left_closed Fth two_nz) by first [assumption | lia].
       assert (A1 : nodes (2*I-1) = (nodes (2*I-2) + h (2*I-2))%F).
       { pose proof (node_step (2*I-2)) as Q. replace (2*I-2+1) with (2*I-1) in Q by lia. exact Q. }
       assert (A2 : nodes (2*I) = (nodes (2*I-2) + h (2*I-2) + h (2*I-1))%F).
       { pose proof (node_step (2*I-1)) as Q. replace (2*I-1+1) with (2*I) in Q by lia.
         rewrite Q, A1. reflexivity. }
       rewrite A2, A1. field. pose proof (hpair_nz I) as Hn.
-      intros E. apply Hn. rewrite <- E. ring.
+      repeat split; first [exact Hn | intros E; apply Hn; rewrite <- E; ring].
     - destruct (j =? 2 * I + 1); [|reflexivity].
-      rewrite (rw_right_closed Fth two_nz nodes cell_centers h cnodes ccell_centers ch
-                 n lh lch ln hpair_nz cc_def node_step cnode_def ch_def ccc_def) by lia.
+      rewrite (rw_right_closed Fth two_nz) by first [assumption | lia].
       assert (A1 : nodes (2*I+1) = (nodes (2*I) + h (2*I))%F) by apply node_step.
       assert (A2 : nodes (2*I+2) = (nodes (2*I) + h (2*I) + h (2*I+1))%F).
       { pose proof (node_step (2*I+1)) as Q. replace (2*I+1+1) with (2*I+2) in Q by lia.
         rewrite Q, A1. reflexivity. }
       rewrite A2, A1. field. pose proof (hpair_nz' I) as Hn.
-      split; [exact Hn|]. intros E. apply Hn. rewrite <- E. ring.
+      repeat split; first [exact Hn | intros E; apply Hn; rewrite <- E; ring].
   Qed.
 
   (* interpolation weights of an odd fine node sum to one *)
@@ -76,7 +74,8 @@ Section Transpose1D.
     assert (A2 : nodes (2*m+2) = (nodes (2*m) + h (2*m) + h (2*m+1))%F).
     { pose proof (node_step (2*m+1)) as Q. replace (2*m+1+1) with (2*m+2) in Q by lia.
       rewrite Q, A1. reflexivity. }
-    rewrite A2, A1. field. pose proof (hpair_nz' m) as Hn. intros E. apply Hn. rewrite <- E. ring.
+    rewrite A2, A1. field. pose proof (hpair_nz' m) as Hn.
+    repeat split; first [exact Hn | intros E; apply Hn; rewrite <- E; ring].
   Qed.
 
   (* an even fine node copies its coarse node *)
@@ -93,15 +92,15 @@ Section Children.
      cells according to the pattern *)
   Theorem restrict_param_full (p : Z -> Z -> Z -> F) I J K :
     restrict_param 0 p I J K =
-    (((p (2*I) (2*J) (2*K) + p (2*I) (2*J) (2*K+1)) + (p (2*I) (2*J+1) (2*K) + p (2*I) (2*J+1) (2*K+1)))
-     + ((p (2*I+1) (2*J) (2*K) + p (2*I+1) (2*J) (2*K+1))
-        + (p (2*I+1) (2*J+1) (2*K) + p (2*I+1) (2*J+1) (2*K+1))))%F.
+    (((p (2*I)%Z (2*J)%Z (2*K)%Z + p (2*I)%Z (2*J)%Z (2*K+1)%Z) + (p (2*I)%Z (2*J+1)%Z (2*K)%Z + p (2*I)%Z (2*J+1)%Z (2*K+1)%Z))
+     + ((p (2*I+1)%Z (2*J)%Z (2*K)%Z + p (2*I+1)%Z (2*J)%Z (2*K+1)%Z)
+        + (p (2*I+1)%Z (2*J+1)%Z (2*K)%Z + p (2*I+1)%Z (2*J+1)%Z (2*K+1)%Z)))%F.
   Proof. reflexivity. Qed.
   Theorem restrict_param_yz (p : Z -> Z -> Z -> F) I J K :
     restrict_param 1 p I J K =
-    ((p I (2*J) (2*K) + p I (2*J) (2*K+1)) + (p I (2*J+1) (2*K) + p I (2*J+1) (2*K+1)))%F.
+    ((p I (2*J)%Z (2*K)%Z + p I (2*J)%Z (2*K+1)%Z) + (p I (2*J+1)%Z (2*K)%Z + p I (2*J+1)%Z (2*K+1)%Z))%F.
   Proof. reflexivity. Qed.
   Theorem restrict_param_x (p : Z -> Z -> Z -> F) I J K :
-    restrict_param 4 p I J K = (p (2*I) J K + p (2*I+1) J K)%F.
+    restrict_param 4 p I J K = (p (2*I)%Z J K + p (2*I+1)%Z J K)%F.
   Proof. reflexivity. Qed.
 End Children.
